@@ -229,6 +229,53 @@ func getterFraming(rows []c09lib.Ent) [][]c09lib.Ent {
 	return append(msgs, append(append([]c09lib.Ent{}, rows...), c09lib.Ent{EOF: true}))
 }
 
+// splitScripts: the two halves of a query split at one position (breakScript modifies the script it is given, so
+// each split position gets its own parse; planning reads the scripts only, so the halves are reused for every
+// database, limit and direction).
+type splitScripts struct {
+	whole  *logql_parser.LogQLScript // bp < 0
+	ch, in *logql_parser.LogQLScript
+	err    error
+}
+
+var splitCache = map[string]*splitScripts{}
+
+func getSplit(text string, bp int) *splitScripts {
+	key := fmt.Sprintf("%d\x00%s", bp, text)
+	if s, ok := splitCache[key]; ok {
+		return s
+	}
+	if len(splitCache) > 64 {
+		splitCache = map[string]*splitScripts{}
+	}
+	s := &splitScripts{}
+	splitCache[key] = s
+	script, err := logql_parser.Parse(text)
+	if err != nil {
+		s.err = &o2Skip{"parse: " + err.Error()}
+		return s
+	}
+	if bp < 0 {
+		s.whole = script
+		return s
+	}
+	func() {
+		defer func() {
+			if r := recover(); r != nil {
+				s.err = &o2Skip{fmt.Sprint("breakScript panics: ", r)}
+			}
+		}()
+		s.ch, s.in, err = logql.VerifBreakScript(bp, script)
+	}()
+	if s.err == nil && err != nil {
+		s.err = &o2Skip{"breakScript: " + err.Error()}
+	}
+	if s.err == nil && (s.ch == nil || s.in == nil) {
+		s.err = &o2Skip{"breakScript: no split"}
+	}
+	return s
+}
+
 // runSplit executes query text split at bp (-1: everything on the SQL engine with CHFinalize, like Plan() does
 // when GetBreakpoint finds no reason to split).
 func runSplit(text string, bp int, c c09lib.Case, db *chsim.DB) (out c09lib.Output, sqlText string, err error) {
@@ -237,14 +284,14 @@ func runSplit(text string, bp int, c c09lib.Case, db *chsim.DB) (out c09lib.Outp
 			out.Panic = fmt.Sprint(r)
 		}
 	}()
-	script, err := logql_parser.Parse(text) // breakScript modifies the script: a fresh one per split
-	if err != nil {
-		return out, "", &o2Skip{"parse: " + err.Error()}
+	sp := getSplit(text, bp)
+	if sp.err != nil {
+		return out, "", sp.err
 	}
-	matrix := script.StrSelector == nil
 	ctx := o2Context(c)
 	if bp < 0 {
-		plan, err := clickhouse_planner.Plan(script, true)
+		matrix := sp.whole.StrSelector == nil
+		plan, err := clickhouse_planner.Plan(sp.whole, true)
 		if err != nil {
 			return out, "", &o2Skip{"sql planner: " + err.Error()}
 		}
@@ -254,14 +301,7 @@ func runSplit(text string, bp int, c c09lib.Case, db *chsim.DB) (out c09lib.Outp
 		}
 		return c09lib.Output{Matrix: matrix, Batches: getterFraming(rows)}, sqlText, nil
 	}
-	chScript, inScript, err := logql.VerifBreakScript(bp, script)
-	if err != nil {
-		return out, "", &o2Skip{"breakScript: " + err.Error()}
-	}
-	if chScript == nil || inScript == nil {
-		return out, "", &o2Skip{"breakScript: no split"}
-	}
-	plan, err := clickhouse_planner.Plan(chScript, false)
+	plan, err := clickhouse_planner.Plan(sp.ch, false)
 	if err != nil {
 		return out, "", &o2Skip{"sql planner: " + err.Error()}
 	}
@@ -269,7 +309,7 @@ func runSplit(text string, bp int, c c09lib.Case, db *chsim.DB) (out c09lib.Outp
 	if err != nil {
 		return out, sqlText, err
 	}
-	proc, err := internal_planner.Plan(inScript, &c09lib.Upstream{Msgs: getterFraming(rows)})
+	proc, err := internal_planner.Plan(sp.in, &c09lib.Upstream{Msgs: getterFraming(rows)})
 	if err != nil {
 		return out, sqlText, &o2Skip{"internal planner: " + err.Error()}
 	}
